@@ -3,6 +3,236 @@
 use super::*;
 use crate::verif_common::*;
 
+/// An io::Write sink that records what it receives and misbehaves in a
+/// configurable way at its `fail_at`-th write call:
+///   mode 0: returns Err(kind)          (and keeps failing afterwards)
+///   mode 1: returns Ok(0)              (zero-length write -> write_all must report WriteZero)
+/// independent of that, with `short` set every call accepts at most 1 byte.
+struct Sink {
+    buf: [u8; 16],
+    len: usize,
+    calls: usize,
+    fail_at: usize,
+    mode: u8,
+    kind: io::ErrorKind,
+    short: bool,
+    calls_after_failure: usize,
+    failed: bool,
+}
+
+impl Sink {
+    fn new(fail_at: usize, mode: u8, kind: io::ErrorKind, short: bool) -> Sink {
+        Sink { buf: [0; 16], len: 0, calls: 0, fail_at, mode, kind, short, calls_after_failure: 0, failed: false }
+    }
+}
+
+impl io::Write for Sink {
+    fn write(&mut self, data: &[u8]) -> io::Result<usize> {
+        if self.failed {
+            self.calls_after_failure += 1;
+        }
+        let k = self.calls;
+        self.calls += 1;
+        if k >= self.fail_at {
+            self.failed = true;
+            return if self.mode == 0 { Err(io::Error::from(self.kind)) } else { Ok(0) };
+        }
+        let n = if self.short && data.len() > 1 { 1 } else { data.len() };
+        let mut i = 0;
+        while i < n {
+            if self.len < 16 {
+                self.buf[self.len] = data[i];
+                self.len += 1;
+            }
+            i += 1;
+        }
+        Ok(n)
+    }
+    fn flush(&mut self) -> io::Result<()> {
+        Ok(())
+    }
+}
+
+macro_rules! sink_harness {
+    ($name:ident, $mode:expr, $short:expr, $kind:expr, [$(($op:ident, $bytes:expr)),*]) => {
+        #[kani::proof]
+        #[kani::unwind(7)]
+        fn $name() {
+            let fail_at: usize = kani::any();
+            kani::assume(fail_at <= 4);
+            let mut w = WriteWrapper { w: Sink::new(fail_at, $mode, $kind, $short), err: None };
+            // what a non-failing run delivers
+            let mut expect = [0u8; 4];
+            let mut elen = 0;
+            $(
+                let b: &[u8] = $bytes;
+                let mut j = 0;
+                while j < b.len() {
+                    expect[elen] = b[j];
+                    elen += 1;
+                    j += 1;
+                }
+            )*
+            let mut failed_op = false;
+            {
+                let mut out = Output::new(&mut w);
+                $(
+                    // the VM stops issuing writes at the first error (ok!/ctx_ok! at both emit sites)
+                    if !failed_op {
+                        if $op(&mut out).is_err() {
+                            failed_op = true;
+                        }
+                    }
+                )*
+                core::mem::forget(out);
+            }
+            // prefix property
+            assert!(w.w.len <= elen);
+            let mut i = 0;
+            while i < 4 {
+                if i < w.w.len {
+                    assert!(w.w.buf[i] == expect[i]);
+                }
+                i += 1;
+            }
+            // nothing is written after the sink reported a failure
+            assert!(w.w.calls_after_failure == 0);
+            if !failed_op {
+                assert!(w.w.len == elen);
+                assert!(!w.w.failed);
+                assert!(w.err.is_none());
+            } else {
+                // the failure is never swallowed: the sink's own error is stored
+                assert!(w.w.failed);
+                assert!(w.err.is_some());
+                let k = w.err.as_ref().unwrap().kind();
+                if $mode == 0 {
+                    assert!(k == $kind);
+                } else {
+                    assert!(k == io::ErrorKind::WriteZero);
+                }
+            }
+            // a sink that misbehaved always surfaces as an error of the operation that hit it
+            if w.w.failed {
+                assert!(failed_op);
+            }
+            kani::cover!(failed_op && w.w.len > 0);
+            kani::cover!(!failed_op);
+            core::mem::forget(w);
+        }
+    };
+}
+
+#[inline(always)]
+fn op_ab(out: &mut Output) -> fmt::Result {
+    out.write_str("ab")
+}
+#[inline(always)]
+fn op_lt(out: &mut Output) -> fmt::Result {
+    out.write_str("<")
+}
+#[inline(always)]
+fn op_char(out: &mut Output) -> fmt::Result {
+    fmt::Write::write_char(out, '\u{e9}')
+}
+#[inline(always)]
+fn op_fmt(out: &mut Output) -> fmt::Result {
+    out.write_fmt(format_args!("{}", "xy"))
+}
+
+// @verif-block props=C19 group=core doc=WriteWrapper+Output_over_a_sink_that_misbehaves_at_its_k-th_write_call_(k<=4_symbolic;_Err(kind)_or_a_zero-length_write;_optionally_accepting_1_byte_per_call):_bytes_received_are_a_prefix_of_the_non-failing_output,_nothing_is_written_after_the_failure,_the_operation_that_hit_it_returns_Err_and_the_sink's_own_io::Error_(kind_preserved;_WriteZero_for_zero-length_writes)_is_stored;_operation_sequence_as_listed
+sink_harness!(c19_sink_str_str_brokenpipe, 0, false, io::ErrorKind::BrokenPipe, [(op_ab, b"ab"), (op_lt, b"<")]); // tier=quick cap=900
+sink_harness!(c19_sink_char_str_other_short, 0, true, io::ErrorKind::Other, [(op_char, "\u{e9}".as_bytes()), (op_ab, b"ab")]); // tier=quick cap=900
+sink_harness!(c19_sink_str_char_wouldblock_short, 0, true, io::ErrorKind::WouldBlock, [(op_ab, b"ab"), (op_char, "\u{e9}".as_bytes())]); // tier=quick cap=900
+sink_harness!(c19_sink_char_str_zero_write, 1, false, io::ErrorKind::Other, [(op_char, "\u{e9}".as_bytes()), (op_ab, b"ab")]); // tier=quick cap=900
+sink_harness!(c19_sink_str_str_zero_write_short, 1, true, io::ErrorKind::Other, [(op_ab, b"ab"), (op_lt, b"<")]); // tier=thorough cap=900
+sink_harness!(c19_sink_fmt_str_brokenpipe, 0, false, io::ErrorKind::BrokenPipe, [(op_fmt, b"xy"), (op_ab, b"ab")]); // tier=thorough cap=1800
+// @verif-end
+
+macro_rules! take_err_harness {
+    ($name:ident, $kind:expr, $io:expr) => {
+        #[kani::proof]
+        #[kani::unwind(4)]
+        #[kani::stub(crate::error::Error::with_source, crate::error::verif_kani::with_source_model)]
+        fn $name() {
+            let mut w = WriteWrapper { w: Sink::new(0, 0, io::ErrorKind::Other, false), err: Some(io::Error::from($io)) };
+            let original = Error::from($kind);
+            let e = w.take_err(original);
+            // the API boundary reports a write failure carrying the sink's own error, whatever kind
+            // the engine's error had been wrapped into on the way up
+            assert!(matches!(e.kind(), ErrorKind::WriteFailure));
+            assert!(e.line() == Some(crate::error::verif_kani::SOURCE_ATTACHED_MARK));
+            // exactly once: a second call returns the engine's error unchanged
+            assert!(w.err.is_none());
+            let e2 = w.take_err(Error::from($kind));
+            assert!(e2.kind() == $kind);
+            kani::cover!(true);
+            core::mem::forget(e);
+            core::mem::forget(e2);
+            core::mem::forget(w);
+        }
+    };
+}
+
+// @verif-block props=C19 group=core doc=WriteWrapper::take_err(original)_with_a_stored_sink_error_returns_kind_WriteFailure_with_a_source,_for_the_listed_kind_of_the_engine-side_error_(errors_from_includes/super_are_wrapped_as_BadInclude/EvalBlock_before_they_reach_the_API_boundary),_and_hands_the_stored_error_out_exactly_once
+take_err_harness!(c19_take_err_writefailure, ErrorKind::WriteFailure, io::ErrorKind::BrokenPipe); // tier=quick cap=600
+take_err_harness!(c19_take_err_badinclude, ErrorKind::BadInclude, io::ErrorKind::Other); // tier=quick cap=600
+take_err_harness!(c19_take_err_evalblock, ErrorKind::EvalBlock, io::ErrorKind::WouldBlock); // tier=quick cap=600
+take_err_harness!(c19_take_err_invalidop, ErrorKind::InvalidOperation, io::ErrorKind::Other); // tier=thorough cap=600
+// @verif-end
+
+// ------------------------------------------------------------------ C02 / C05: captures
+
+macro_rules! capture_harness {
+    ($name:ident, $mode:expr, $safe:expr) => {
+        #[kani::proof]
+        #[kani::unwind(8)]
+        fn $name() {
+            let mut rec = Rec::<8>::new();
+            let nested: bool = kani::any();
+            let v;
+            let v2;
+            {
+                let mut out = Output::new(&mut rec);
+                assert!(out.write_str("a").is_ok());
+                out.begin_capture(CaptureMode::Capture);
+                assert!(out.write_str("<b").is_ok());
+                if nested {
+                    out.begin_capture(CaptureMode::Capture);
+                    assert!(out.write_str("c").is_ok());
+                    v2 = out.end_capture($mode);
+                } else {
+                    v2 = Value::UNDEFINED;
+                }
+                assert!(out.write_str(">").is_ok());
+                v = out.end_capture($mode);
+                assert!(out.write_str("z").is_ok());
+                assert!(out.capture_stack.is_empty());
+                core::mem::forget(out);
+            }
+            // text written before/after the capture reaches the real sink, captured text does not
+            assert!(rec.len == 2 && rec.buf[0] == b'a' && rec.buf[1] == b'z');
+            // the capture holds exactly what was written between begin and end (inner capture excluded)
+            assert!(v.as_str() == Some("<b>"));
+            // and is marked safe iff escaping was on when the capture ended
+            assert!(v.is_safe() == $safe);
+            if nested {
+                assert!(v2.as_str() == Some("c"));
+                assert!(v2.is_safe() == $safe);
+            }
+            kani::cover!(nested);
+            kani::cover!(!nested);
+            core::mem::forget(v);
+            core::mem::forget(v2);
+        }
+    };
+}
+
+// @verif-block props=C02,C05 group=core doc=Output::begin_capture/end_capture_(optionally_nested):_captured_text_is_exactly_what_was_written_since_the_matching_begin,_it_is_a_SAFE_string_iff_auto-escaping_was_on_when_the_capture_ended,_and_text_written_after_the_capture_reaches_the_real_output_again
+capture_harness!(c05_capture_html_marks_safe, AutoEscape::Html, true); // tier=quick cap=600
+capture_harness!(c05_capture_none_stays_unsafe, AutoEscape::None, false); // tier=quick cap=600
+// @verif-end
+
 #[cfg(test)]
 mod playback {
     use super::*;
